@@ -342,6 +342,49 @@ def inline_region(fx, root_key, depth=4, policy=None, desugar=True):
                 return g, pl["l"]
         return None
 
+    _IDENT_ADAPT = {"std::iter::Iterator::cloned", "std::iter::Iterator::copied", "std::iter::Iterator::by_ref",
+                    "std::iter::IntoIterator::into_iter"}
+
+    def _stages(fn, op, stack):
+        """Lazy adaptors between the source iterator and the consumer: ([(kind, callee, env local, call term)], source operand)."""
+        stages = []
+        for _ in range(6):
+            pl = op.get("move") or op.get("copy")
+            if pl is None or pl["p"]:
+                break
+            defs = []
+            for blk in fn["blocks"]:
+                if blk["cleanup"]:
+                    continue
+                for st in blk["stmts"]:
+                    if st["k"] == "assign" and st["dst"]["l"] == pl["l"]:
+                        defs.append(("assign", st))
+                tt = blk["term"]
+                if tt and tt["k"] == "call" and tt["dst"]["l"] == pl["l"]:
+                    defs.append(("call", tt))
+            if len(defs) != 1:
+                break
+            kind, node = defs[0]
+            if kind == "assign":
+                if not node["dst"]["p"] and node["rv"]["k"] == "use" and (node["rv"]["op"].get("move") or node["rv"]["op"].get("copy")):
+                    op = node["rv"]["op"]
+                    continue
+                if not node["dst"]["p"] and node["rv"]["k"] == "ref" and not node["rv"]["place"]["p"]:
+                    op = {"copy": node["rv"]["place"]}
+                    continue
+                break
+            n = callee_name(node)
+            if n in ("std::iter::Iterator::map", "std::iter::Iterator::filter") and len(node["args"]) == 2:
+                co = _closure_of(fn, node["args"][1])
+                if co is None or co[0]["key"] in stack or co[0]["arg_count"] != (2 if co[1] is not None else 1):
+                    break
+                stages.append((n.split("::")[-1], co[0], co[1], node))
+                op = node["args"][0]
+                continue
+            break
+        stages.reverse()
+        return stages, op
+
     def _desugar(fn, bi, nb, t, loff, boff, stack, d, inst):
         name = callee_name(t)
         kind = _DESUGAR[name]
@@ -427,8 +470,18 @@ def inline_region(fx, root_key, depth=4, policy=None, desugar=True):
                            "synthetic": "desugar"}
 
         if kind in ("for_each", "any", "all", "find", "try_for_each"):
+            stages, src_op = _stages(fn, fn["blocks"][bi]["term"]["args"][0], stack | {callee["key"]})
+            if stages:
+                src_op = _shift(src_op, loff, boff)
+                arg_ty = "_"
+                for blk0 in fn["blocks"]:
+                    tt0 = blk0["term"]
+                    if tt0 and tt0["k"] == "call" and tt0 is stages[0][3]:
+                        arg_ty = (tt0.get("arg_tys") or ["_"])[0]
+            else:
+                src_op = t["args"][0]
             it = local(arg_ty)
-            assign(nb, it, use(t["args"][0]))
+            assign(nb, it, use(src_op))
             r = local("&mut " + arg_ty)
             tmp = local(OPT + "<_>")
             dl = local("isize")
@@ -443,17 +496,48 @@ def inline_region(fx, root_key, depth=4, policy=None, desugar=True):
             new["blocks"][H]["term"] = nt
             assign(S, dl, {"k": "discr", "place": {"l": tmp, "p": []}, "pty": OPT + "<_>", "adt": OPT, "variants": OPT_V})
             switch(S, dl, "isize", [[1, Bd]], X)
-            bind_env(Bd)
+            # lazy adaptors run first, element by element
+            cur_blk = Bd
+            cur_elem = {"move": variant_field(tmp, "Some", 1, OPT)}
+            for si, (skind, scallee, senv, snode) in enumerate(stages):
+                s_off = len(new["locals"])
+                for l in scallee["locals"]:
+                    new["locals"].append(dict(l))
+                sinst = inst + "/" + scallee["path"].split("::")[-1] + "@" + str(boff + bi) + "s" + str(si)
+                if senv is not None:
+                    ety = scallee["locals"][1]["ty"]
+                    srcp = {"l": senv + loff, "p": []}
+                    assign(cur_blk, s_off + 1, {"k": "ref", "mut": ety.startswith("&mut "), "place": srcp} if ety.startswith("&") else use({"move": srcp}), "arg")
+                s_item = s_off + (2 if senv is not None else 1)
+                sret = local(scallee["locals"][0]["ty"])
+                nxt = block()
+                if skind == "map":
+                    assign(cur_blk, s_item, use(cur_elem), "arg")
+                    scb = emit(scallee, s_off, stack | {callee["key"], scallee["key"]}, d - 1, ret_dst={"l": sret, "p": []}, ret_target=nxt, inst=sinst)
+                    goto(cur_blk, scb)
+                    cur_elem = mv(sret)
+                else:   # filter: the predicate sees a reference; a rejected element goes back to the header
+                    held = local("_")
+                    assign(cur_blk, held, use(cur_elem))
+                    assign(cur_blk, s_item, {"k": "ref", "mut": False, "place": {"l": held, "p": []}}, "arg")
+                    tst = block()
+                    scb = emit(scallee, s_off, stack | {callee["key"], scallee["key"]}, d - 1, ret_dst={"l": sret, "p": []}, ret_target=tst, inst=sinst)
+                    goto(cur_blk, scb)
+                    switch(tst, sret, "bool", [[0, H]], nxt)
+                    cur_elem = mv(held)
+                new["inlined"].append({"callee": scallee["path"], "at_block": boff + bi, "inst": sinst, "site": at, "desugared": "adaptor " + skind})
+                cur_blk = nxt
+            bind_env(cur_blk)
             rty = callee["locals"][0]["ty"]
             if kind == "find":
                 el = local("_")
-                assign(Bd, el, use({"move": variant_field(tmp, "Some", 1, OPT)}))
-                assign(Bd, p_item, {"k": "ref", "mut": False, "place": {"l": el, "p": []}}, "arg")
+                assign(cur_blk, el, use(cur_elem))
+                assign(cur_blk, p_item, {"k": "ref", "mut": False, "place": {"l": el, "p": []}}, "arg")
             else:
-                assign(Bd, p_item, use({"move": variant_field(tmp, "Some", 1, OPT)}), "arg")
+                assign(cur_blk, p_item, use(cur_elem), "arg")
             rr = local(rty)
             cb = emit_callee({"l": rr, "p": []}, A)
-            goto(Bd, cb)
+            goto(cur_blk, cb)
             if kind == "for_each":
                 goto(A, H)
                 assign(X, dst, unit)
